@@ -952,7 +952,7 @@ Qed.
 Definition ex_base : objs :=
   {| kern := loop_init 2 (Fin 0); sigs := []; astat := [AsNew; AsNew]; notifs := []; flags := [];
      tracked := []; tasks := []; scopes := []; locks := []; queues := []; chans := []; ress := [];
-     tnames := []; snames := []; trace := []; serial := 0 |}.
+     tnames := []; snames := []; trace := []; serial := 0; closing := 0 |}.
 Definition ex_o0 : objs := alloc_lock ex_base.
 Definition ex_wk0 : aid -> sid := fun _ => 7.
 Definition ex_o1 := sec_enter ex_o0 0 0.
